@@ -30,7 +30,9 @@ def dense_case(cid, Phi, Psi, w, wc, wt, ft=True):
     try:
         with warnings.catch_warnings():
             warnings.simplefilter("ignore")
-            kn = core.mk(KernelNormalizer, with_center=wc, with_trace=wt).fit(K.copy(), sample_weight=sw)
+            # weights are array-LIKE: a plain list or tuple now and then
+            swa = sw if (sw is None or (len(sw) + int(np.sum(sw))) % 3) else (list(sw) if len(sw) % 2 else tuple(sw))
+            kn = core.mk(KernelNormalizer, with_center=wc, with_trace=wt).fit(K.copy(), sample_weight=swa)
             # transform / fit_transform may work in place when asked to (copy=False): same values, on a private copy
             if sw is not None:
                 sw[:] = sw[::-1].copy() + 1.0          # the caller reuses its weight buffer after fit: the fitted state must not follow
@@ -66,7 +68,8 @@ def sparse_case(cid, Phi, A, w, wc, wt, rng=None):
             cu = float(rng.choice([1.0, 1.0, 1e-3, 30.0])) if rng is not None else 1.0
             rc = float(rng.choice([1e-12, 1e-12, 1e-4])) if rng is not None else 1e-12
             back = cu if wt else cu * cu
-            sk = core.mk(SparseKernelCenterer, with_center=wc, with_trace=wt, rcond=rc).fit(Knm * cu * cu, Kmm * cu * cu, sample_weight=sw)
+            swa = sw if (sw is None or (len(sw) + int(np.sum(sw))) % 3) else (list(sw) if len(sw) % 2 else tuple(sw))
+            sk = core.mk(SparseKernelCenterer, with_center=wc, with_trace=wt, rcond=rc).fit(Knm * cu * cu, Kmm * cu * cu, sample_weight=swa)
             T = sk.transform(Knm * cu * cu) / back
             Tft = SparseKernelCenterer(with_center=wc, with_trace=wt, rcond=rc).fit_transform(Knm * cu * cu, Kmm * cu * cu, sample_weight=sw) / back
             c["units"] = [cu, rc]
